@@ -3507,6 +3507,82 @@ impl LuaCommandAdapter {
         self.execute_lua_command_bytes(args.into_iter().map(String::into_bytes).collect(), db_index)
     }
     
+    /// The command handlers the server itself dispatches to, for the commands where those are
+    /// free functions; None for every other command
+    fn run_server_handler(storage: &Arc<StorageEngine>, db: usize, parts: &[RespFrame]) -> Option<Result<RespFrame>> {
+        use crate::storage::commands::{consumer_groups, hashes, lists, scan, sets, streams, strings};
+        
+        let name = match parts.first() {
+            Some(RespFrame::BulkString(Some(bytes))) => String::from_utf8_lossy(bytes).to_uppercase(),
+            _ => return None,
+        };
+        
+        Some(match name.as_str() {
+            "MGET" => strings::handle_mget(storage, db, parts),
+            "MSET" => strings::handle_mset(storage, db, parts),
+            "GETSET" => strings::handle_getset(storage, db, parts),
+            "APPEND" => strings::handle_append(storage, db, parts),
+            "STRLEN" => strings::handle_strlen(storage, db, parts),
+            "GETRANGE" => strings::handle_getrange(storage, db, parts),
+            "SETRANGE" => strings::handle_setrange(storage, db, parts),
+            "TYPE" => strings::handle_type(storage, db, parts),
+            "RENAME" => strings::handle_rename(storage, db, parts),
+            "KEYS" => strings::handle_keys(storage, db, parts),
+            "PEXPIRE" => strings::handle_pexpire(storage, db, parts),
+            "PTTL" => strings::handle_pttl(storage, db, parts),
+            "PERSIST" => strings::handle_persist(storage, db, parts),
+            "LPUSH" => lists::handle_lpush(storage, db, parts),
+            "RPUSH" => lists::handle_rpush(storage, db, parts),
+            "LPOP" => lists::handle_lpop(storage, db, parts),
+            "RPOP" => lists::handle_rpop(storage, db, parts),
+            "LLEN" => lists::handle_llen(storage, db, parts),
+            "LRANGE" => lists::handle_lrange(storage, db, parts),
+            "LINDEX" => lists::handle_lindex(storage, db, parts),
+            "LSET" => lists::handle_lset(storage, db, parts),
+            "LTRIM" => lists::handle_ltrim(storage, db, parts),
+            "LREM" => lists::handle_lrem(storage, db, parts),
+            "SADD" => sets::handle_sadd(storage, db, parts),
+            "SREM" => sets::handle_srem(storage, db, parts),
+            "SMEMBERS" => sets::handle_smembers(storage, db, parts),
+            "SISMEMBER" => sets::handle_sismember(storage, db, parts),
+            "SCARD" => sets::handle_scard(storage, db, parts),
+            "SUNION" => sets::handle_sunion(storage, db, parts),
+            "SINTER" => sets::handle_sinter(storage, db, parts),
+            "SDIFF" => sets::handle_sdiff(storage, db, parts),
+            "SRANDMEMBER" => sets::handle_srandmember(storage, db, parts),
+            "SPOP" => sets::handle_spop(storage, db, parts),
+            "HSET" => hashes::handle_hset(storage, db, parts),
+            "HGET" => hashes::handle_hget(storage, db, parts),
+            "HMSET" => hashes::handle_hmset(storage, db, parts),
+            "HMGET" => hashes::handle_hmget(storage, db, parts),
+            "HGETALL" => hashes::handle_hgetall(storage, db, parts),
+            "HDEL" => hashes::handle_hdel(storage, db, parts),
+            "HLEN" => hashes::handle_hlen(storage, db, parts),
+            "HEXISTS" => hashes::handle_hexists(storage, db, parts),
+            "HKEYS" => hashes::handle_hkeys(storage, db, parts),
+            "HVALS" => hashes::handle_hvals(storage, db, parts),
+            "HINCRBY" => hashes::handle_hincrby(storage, db, parts),
+            "XADD" => streams::handle_xadd(storage, db, parts),
+            "XRANGE" => streams::handle_xrange(storage, db, parts),
+            "XREVRANGE" => streams::handle_xrevrange(storage, db, parts),
+            "XLEN" => streams::handle_xlen(storage, db, parts),
+            "XREAD" => streams::handle_xread(storage, db, parts),
+            "XTRIM" => streams::handle_xtrim(storage, db, parts),
+            "XDEL" => streams::handle_xdel(storage, db, parts),
+            "XGROUP" => consumer_groups::handle_xgroup(storage, db, parts),
+            "XREADGROUP" => consumer_groups::handle_xreadgroup(storage, db, parts),
+            "XACK" => consumer_groups::handle_xack(storage, db, parts),
+            "XCLAIM" => consumer_groups::handle_xclaim(storage, db, parts),
+            "XPENDING" => consumer_groups::handle_xpending(storage, db, parts),
+            "XINFO" => consumer_groups::handle_xinfo(storage, db, parts),
+            "SCAN" => scan::handle_scan(storage, db, parts),
+            "HSCAN" => scan::handle_hscan(storage, db, parts),
+            "SSCAN" => scan::handle_sscan(storage, db, parts),
+            "ZSCAN" => scan::handle_zscan(storage, db, parts),
+            _ => return None,
+        })
+    }
+    
     /// Same, with arguments as the byte strings they are
     pub fn execute_lua_command_bytes(
         &self,
@@ -3518,6 +3594,12 @@ impl LuaCommandAdapter {
             .into_iter()
             .map(RespFrame::from_bytes)
             .collect();
+        
+        // Commands whose server handler is a plain function of (storage, db, arguments) run
+        // that very handler, so that a script and a client cannot get different answers
+        if let Some(result) = Self::run_server_handler(&self.executor.storage, db_index, &frames) {
+            return result;
+        }
         
         let mut parsed = CommandParser::parse(&frames)?;
         parsed.db_override = Some(db_index);
